@@ -39,6 +39,52 @@ use std::collections::{BTreeMap, HashSet};
 use std::panic::AssertUnwindSafe;
 use std::sync::Arc;
 
+// ------------------------------------------------------ faulty store ----
+/// InMemory with one injectable fault: the next `n` GETs of the split-state
+/// object fail with a generic (non-NotFound) error, as a transient store error would.
+#[derive(Debug)]
+struct FaultStore {
+    inner: InMemory,
+    fail_split_state_gets: std::sync::atomic::AtomicU32,
+}
+impl std::fmt::Display for FaultStore {
+    fn fmt(&self, f: &mut std::fmt::Formatter<'_>) -> std::fmt::Result {
+        write!(f, "FaultStore({})", self.inner)
+    }
+}
+#[async_trait::async_trait]
+impl ObjectStore for FaultStore {
+    async fn put_opts(&self, location: &object_store::path::Path, payload: object_store::PutPayload, opts: object_store::PutOptions) -> object_store::Result<object_store::PutResult> {
+        self.inner.put_opts(location, payload, opts).await
+    }
+    async fn put_multipart_opts(&self, location: &object_store::path::Path, opts: object_store::PutMultipartOpts) -> object_store::Result<Box<dyn object_store::MultipartUpload>> {
+        self.inner.put_multipart_opts(location, opts).await
+    }
+    async fn get_opts(&self, location: &object_store::path::Path, options: object_store::GetOptions) -> object_store::Result<object_store::GetResult> {
+        use std::sync::atomic::Ordering;
+        if location.as_ref().ends_with("split-states.json") && self.fail_split_state_gets.load(Ordering::SeqCst) > 0 {
+            self.fail_split_state_gets.fetch_sub(1, Ordering::SeqCst);
+            return Err(object_store::Error::Generic { store: "FaultStore", source: "injected transient GET failure".into() });
+        }
+        self.inner.get_opts(location, options).await
+    }
+    async fn delete(&self, location: &object_store::path::Path) -> object_store::Result<()> {
+        self.inner.delete(location).await
+    }
+    fn list(&self, prefix: Option<&object_store::path::Path>) -> futures::stream::BoxStream<'_, object_store::Result<object_store::ObjectMeta>> {
+        self.inner.list(prefix)
+    }
+    async fn list_with_delimiter(&self, prefix: Option<&object_store::path::Path>) -> object_store::Result<object_store::ListResult> {
+        self.inner.list_with_delimiter(prefix).await
+    }
+    async fn copy(&self, from: &object_store::path::Path, to: &object_store::path::Path) -> object_store::Result<()> {
+        self.inner.copy(from, to).await
+    }
+    async fn copy_if_not_exists(&self, from: &object_store::path::Path, to: &object_store::path::Path) -> object_store::Result<()> {
+        self.inner.copy_if_not_exists(from, to).await
+    }
+}
+
 const NULL_TOKEN: i128 = 1i128 << 63; // SQL NULL of an aggregate (the model's NULL_TOKEN)
 const NULL_CELL: i128 = -1; // NULL label / value cell (never generated as a value)
 
@@ -286,6 +332,8 @@ enum Op {
     P { sid: u32, phase: &'static str },
     C { sid: u32 },
     W { sid: u32, schema: u32, rows: Vec<Row> },
+    /// a write during which the next GET of split-states.json fails (object-store backend only)
+    Wf { sid: u32, schema: u32, rows: Vec<Row> },
     F,
     Hh { sid: u32, rows: Vec<Row> }, // register a historical chunk of the old shard
     B { sid: u32 },                  // ShardSplitter::run_backfill for the planted split
@@ -316,6 +364,7 @@ fn encode_op(o: &Op) -> String {
         Op::P { sid, phase } => format!("P {} {}", sid, phase),
         Op::C { sid } => format!("C {}", sid),
         Op::W { sid, schema, rows } => format!("W {} {} {} {}", sid, schema, ts_kind(*schema), rows.iter().map(show_row).collect::<Vec<_>>().join(";")),
+        Op::Wf { sid, schema, rows } => format!("Wf {} {} {} {}", sid, schema, ts_kind(*schema), rows.iter().map(show_row).collect::<Vec<_>>().join(";")),
         Op::F => "F".to_string(),
         Op::Hh { sid, rows } => format!("Hh {} {}", sid, rows.iter().map(show_row).collect::<Vec<_>>().join(";")),
         Op::B { sid } => format!("B {}", sid),
@@ -374,6 +423,7 @@ fn phase_of(s: &str) -> SplitPhase {
 }
 
 struct Pipeline {
+    fault: Arc<FaultStore>,
     store: Arc<dyn ObjectStore>,
     meta: Arc<dyn MetadataClient>,
     ing: Ingester,
@@ -382,7 +432,8 @@ struct Pipeline {
 }
 
 fn new_pipeline(c: &HCase) -> Pipeline {
-    let store: Arc<dyn ObjectStore> = Arc::new(InMemory::new());
+    let fault = Arc::new(FaultStore { inner: InMemory::new(), fail_split_state_gets: std::sync::atomic::AtomicU32::new(0) });
+    let store: Arc<dyn ObjectStore> = fault.clone();
     let meta: Arc<dyn MetadataClient> = if c.object_store_backend {
         Arc::new(ObjectStoreMetadataClient::new(
             store.clone(),
@@ -395,7 +446,7 @@ fn new_pipeline(c: &HCase) -> Pipeline {
     let mut cfg = IngesterConfig { flush_row_count: c.flush_rows, flush_size_bytes: usize::MAX / 4, max_buffer_size_bytes: usize::MAX / 4, ..Default::default() };
     cfg.wal.enabled = false;
     let ing = Ingester::new(cfg, store.clone(), meta.clone(), sc.clone(), MetricSchema::default_metrics());
-    Pipeline { store, meta, ing, sc, qn: None }
+    Pipeline { fault, store, meta, ing, sc, qn: None }
 }
 
 async fn force_flush(p: &Pipeline) {
@@ -609,6 +660,33 @@ fn run_hcase(rt: &tokio::runtime::Runtime, c: &HCase, ops: &[Op], model_toks: Op
                 }
                 t
             }
+            Op::Wf { sid, schema, rows } => {
+                // oracle only (the model has no fault step): a write that returns Ok while its
+                // shard is in DualWrite/Backfill must have every row in exactly one new shard, on
+                // the correct side; a refused write must leave nothing behind
+                use std::sync::atomic::Ordering;
+                let batch = ingest_batch(*schema, rows);
+                a.fault.fail_split_state_gets.store(1, Ordering::SeqCst);
+                let r = catch(AssertUnwindSafe(|| rt.block_on(a.ing.write(batch))));
+                a.fault.fail_split_state_gets.store(0, Ordering::SeqCst);
+                report.bump("R.write.with_split_state_get_fault");
+                let t = rc(&r);
+                if t == "ok" {
+                    report.bump("R.write.with_split_state_get_fault.accepted");
+                    exp.all_rows.extend(rows.iter().cloned());
+                    if let Some((_, news, point)) = exp.splits.get(sid).filter(|s| s.0 == "dual" || s.0 == "backfill").cloned() {
+                        if ts_kind(*schema) == "i" && point.len() == 8 && news.len() >= 2 {
+                            let sp = i64::from_be_bytes(point.clone().try_into().unwrap());
+                            exp.new_rows.entry(news[0]).or_default().extend(rows.iter().filter(|r| r.ts.unwrap() < sp).cloned());
+                            exp.new_rows.entry(news[1]).or_default().extend(rows.iter().filter(|r| r.ts.unwrap() >= sp).cloned());
+                            report.bump("R.write.with_split_state_get_fault.accepted_in_dual");
+                        }
+                    }
+                } else if t == "panic" {
+                    bad.push(("".into(), format!("op {}: write panicked under a split-state GET fault", i)));
+                }
+                t
+            }
             Op::Hh { sid, rows } => {
                 let path = format!("default/data/{}/hist_{}.parquet", sid_str(*sid), i);
                 let r = rt.block_on(put_hist_chunk(&a, &path, rows));
@@ -744,7 +822,7 @@ fn well_formed(ops: &[Op]) -> bool {
     let mut backfilled: HashSet<u32> = HashSet::new();
     for o in ops {
         match o {
-            Op::W { .. } => written = true,
+            Op::W { .. } | Op::Wf { .. } => written = true,
             Op::Hh { .. } => { written = true; flushed = true; }
             Op::F => flushed = written,
             Op::Q { .. } if !flushed => return false,
@@ -980,6 +1058,7 @@ fn gen_hcase(rng: &mut Rng, e2e: bool, report: &mut Report) -> HCase {
     let mut pool: Vec<Row> = Vec::new();
     let mut next_new = 1u32;
     let nops = rng.range_usize(4, 14);
+    let object_store_backend = rng.chance(1, 2);
     let mut started: Vec<u32> = Vec::new();
     let mut valid_split: BTreeMap<u32, bool> = BTreeMap::new();
     let mut backfilled: HashSet<u32> = HashSet::new();
@@ -1027,7 +1106,15 @@ fn gen_hcase(rng: &mut Rng, e2e: bool, report: &mut Report) -> HCase {
             let n = rng.range_usize(1, 5);
             let rows = gen_rows(rng, base, shard_metric[&sid], n, schema == 3, report, &mut pool);
             report.bump(&format!("R.write.schema{}", schema));
-            ops.push(Op::W { sid, schema, rows });
+            if object_store_backend && !e2e && schema == 1 && rng.chance(1, 4) {
+                // transient failure reading the split state during this write, then (usually) the retry
+                ops.push(Op::Wf { sid, schema, rows: rows.clone() });
+                if rng.chance(2, 3) {
+                    ops.push(Op::W { sid, schema, rows });
+                }
+            } else {
+                ops.push(Op::W { sid, schema, rows });
+            }
         } else if !noflush {
             ops.push(Op::F);
         }
@@ -1060,7 +1147,7 @@ fn gen_hcase(rng: &mut Rng, e2e: bool, report: &mut Report) -> HCase {
         ops.push(Op::F);
     }
     ops.push(Op::X);
-    HCase { flush_rows, object_store_backend: rng.chance(1, 2), base, shard_metric, ops }
+    HCase { flush_rows, object_store_backend, base, shard_metric, ops }
 }
 
 fn gen_query(rng: &mut Rng, base: i64) -> Op {
@@ -1136,6 +1223,21 @@ fn corpus() -> Vec<HCase> {
                 Op::B { sid: 1 }, hq("raw111"), hq("raw110"), hq("count"), q("raw111"),
                 Op::Q { lo: base - HIST_OFFSET - 10, hi: base + 10, metric: None, post: "raw111".into() },
                 Op::X,
+            ],
+        });
+    }
+    // a transient failure reading split-states.json exactly during a dual write: the write must
+    // be refused (and may be retried), never acknowledged with the old-shard copy only
+    for phase in ["dual", "backfill"] {
+        cases.push(HCase {
+            flush_rows: 2, object_store_backend: true, base, shard_metric: sm.clone(),
+            ops: vec![
+                Op::S { sid: 1, news: vec![11, 12], point: be(base + 1) }, Op::P { sid: 1, phase },
+                Op::W { sid: 1, schema: 1, rows: vec![rw(0, 1, 1)] },
+                Op::Wf { sid: 1, schema: 1, rows: vec![rw(0, 2, 2), rw(1, 2, 3), rw(2, 2, 4)] },
+                Op::W { sid: 1, schema: 1, rows: vec![rw(0, 2, 2), rw(1, 2, 3), rw(2, 2, 4)] },
+                Op::Wf { sid: 1, schema: 1, rows: vec![rw(1, 3, 5)] },
+                Op::F, Op::X,
             ],
         });
     }
@@ -1334,5 +1436,6 @@ fn main() {
         check_hcase(&rt, &c, "random.end_to_end", &mut model, &mut report, json!({"case_seed": s, "e2e": true}));
     }
     report.notes.push(format!("model calls: {}", model.calls));
+    report.notes.push("writes under an injected split-state GET fault (op Wf, object-store backend) are judged by the oracle only: the model has no fault step and treats the refused write as a no-op".to_string());
     report.write(&args.out);
 }
